@@ -83,6 +83,10 @@ class Prop(common.PropertyCheck):
         for i, (a, b) in enumerate([(2.0, 3.0), (5.0, 5.0), (0.75, 1e3), (300.0, 200.0)]):
             yield {'g': 'ellipse', 'cont': 'array', 'N': 24, 'a': a, 'b': b, 'theta': 0.0, 'center': [0.0, 0.0] if i % 2 == 0 else [512.0, 256.0], 'log': False,
                    'chform': 'pos', 'dtype': 'float', 'onboundary': True, 'seed': 700 + i}
+        # plain arrays, the channel(s) given as NumPy integers (as produced by `for ch in np.arange(D)`)
+        for i in range(self.budget(24, 200)):
+            yield {'g': 'high_low', 'cont': 'array', 'dtype': ['float', 'uint'][i % 2], 'N': [12, 1, 40, 3][i % 4], 'chform': ['nppos', 'nplist', 'nppos0'][i % 3],
+                   'high': ['scalar', 'default', 'atvalue'][i % 3], 'low': ['default', 'scalar', 'scalar'][(i // 3) % 3], 'big': False, 'seed': rng.randrange(1 << 30)}
         for bad in ('ellipse1', 'ellipse3', 'startend_too_many'):
             yield {'g': 'bad', 'what': bad}
 
@@ -175,6 +179,12 @@ class Prop(common.PropertyCheck):
                     ch, cols = names[1], [1]
                 elif chf in ('pos', 'name'):
                     ch, cols = 2, [2]
+                elif chf == 'nppos':
+                    ch, cols = np.int64(2), [2]
+                elif chf == 'nppos0':
+                    ch, cols = np.arange(D)[0], [0]
+                elif chf == 'nplist':
+                    ch, cols = [np.int64(2), np.int32(0)], [2, 0]
                 elif chf == 'list':
                     ch, cols = ([names[2], 0] if names else [2, 0]), [2, 0]
                 else:
